@@ -1,8 +1,11 @@
 // C18 — time, duration and size formatting is total and value-faithful.
 //
-// Parts (select with --arg only=<part>; default = duration+carry+time+size+timeval):
+// Parts (select with --arg only=<part>; default = duration+carry+ties+time+size+timeval):
 //   duration  every microsecond in B +- W around the unit boundaries (1 s, 60 s, 3600 s, 86400 s)
 //             x precision -1..6; W = 2 s in thorough (exhaustive), 20 ms in quick
+//   ties      decimal rounding ties of the seconds field, t = (m + 0.5) * 10^(6-p) us for p = 0..5 (all of them for
+//             p <= 3, stride sample + every whole-second neighbour for p = 4, 5), t-1, t, t+1, x 10 minute/hour/day
+//             offsets, at precision p, p-1, p+1 and the default
 //   carry     k*60 s - 1 us .. + 1 us for k <= 10^4, hour/day multiples, boundary table, random durations
 //   time      format_time(t) against an independent civil calendar (naive year/month table walk;
 //             *not* gmtime) for 1970..9999; TZ is set to a non-UTC zone so a local-time rendering shows
@@ -264,6 +267,55 @@ static void duration_carry(vf::Rng& r, bool dump_mode) {
     if (us > (1ULL << 63)) us = 1ULL << 63;
     check_duration(us, (int)r.range(-1, 6));
   }
+}
+
+// Decimal-TIE family.  For precision p the seconds field has a rounding tie at t = (m + 0.5) * 10^(6-p) us.  The
+// double nearest to t/10^6 lies slightly below or above the decimal tie, so printf may round either way (the oracle's
+// inclusive half-unit bound accepts both) — but everything else in the text (zero padding of the seconds field, carries
+// into minutes/hours/days) has to agree with what was actually printed.  Ties that sit just below a change in the
+// number of integer digits (9.5, 9.95, 9.995 ... s) or just below a minute (59.5, 59.95 ... s) are the delicate ones:
+// one microsecond value per minute per precision, none of them inside the unit-boundary windows.
+static const uint64_t TIE_OFFSETS[] = {0, MINUTE, 59 * MINUTE, HOUR, HOUR + 59 * MINUTE, 23 * HOUR + 59 * MINUTE, DAY, DAY + 23 * HOUR + 59 * MINUTE,
+    2 * DAY + 59 * MINUTE, 41 * DAY + 7 * HOUR + 9 * MINUTE};
+static const char* TIE_OFFSET_NAME[] = {"0", "1min", "59min", "1h", "1h59min", "23h59min", "1d", "2d-1min", "2d59min", "41d7h9min"};
+
+static void tie_point(uint64_t t, int p) {
+  // t = tie of the seconds field (us within the minute) for precision p; judged at precision p, at the default
+  // precision, and at the neighbouring precisions, on every offset
+  for (size_t o = 0; o < sizeof(TIE_OFFSETS) / sizeof(TIE_OFFSETS[0]); o++)
+    for (int64_t d = -1; d <= 1; d++) {
+      uint64_t us = TIE_OFFSETS[o] + t + (uint64_t)d;
+      check_duration(us, p);
+      check_duration(us, -1);
+      if (d == 0) {
+        if (p > 0) check_duration(us, p - 1);
+        if (p < 6) check_duration(us, p + 1);
+      }
+    }
+  C->cls(fmt("tiefam:p%d", p));
+}
+
+static void duration_ties() {
+  uint64_t idx = 0;
+  for (int p = 0; p <= 5; p++) {  // precision 6 prints whole microseconds: no tie exists
+    uint64_t unit = 1;
+    for (int k = 0; k < 6 - p; k++) unit *= 10;  // one unit of the last printed digit, in us
+    uint64_t nties = 60 * US / unit;            // ties in [0, 60 s): m = 0 .. nties-1
+    // every tie for p <= 3 (thorough; p = 3 strided in quick), a stride sample for p = 4, 5
+    uint64_t stride = p <= 2 ? 1 : p == 3 ? C->qt<uint64_t>(7, 1) : p == 4 ? C->qt<uint64_t>(997, 37) : C->qt<uint64_t>(9973, 397);
+    for (uint64_t m = 0; m < nties; m += stride) {
+      if (!C->mine(idx++)) continue;
+      tie_point(m * unit + unit / 2, p);
+    }
+    // always: the last tie below and the first tie above every whole second (digit-count change at 10 s, minute carry at
+    // 60 s), whatever the stride
+    for (uint64_t sec = 0; sec <= 60; sec++) {
+      if (!C->mine(idx++)) continue;
+      if (sec > 0) tie_point(sec * US - unit / 2, p);
+      if (sec < 60) tie_point(sec * US + unit / 2, p);
+    }
+  }
+  for (size_t o = 0; o < sizeof(TIE_OFFSETS) / sizeof(TIE_OFFSETS[0]); o++) C->cls(fmt("tiefam:offset:%s", TIE_OFFSET_NAME[o]));
 }
 
 // --------------------------------------------------------------------------------------------------------
@@ -703,6 +755,7 @@ int main(int argc, char** argv) {
     vf::Rng r = c.rng(1);
     duration_carry(r, false);
   }
+  if (want("ties")) duration_ties();
   if (want("time")) {
     vf::Rng r = c.rng(2);
     time_suite(r, false);
